@@ -13,6 +13,17 @@ COMMON_NOTE = ("Trusted: Lean 4.33.0 kernel; axioms per theorem as printed by #p
 
 # property id -> dict(level, text, technique, note, design_ref)
 CLAIMED = {
+    "C15": dict(
+        level="proof",
+        text="Lean theorems: f64ToInt32_spec (the bit manipulation of f64_to_int32 equals ToInt32 for every one of the 2^64 bit patterns), "
+             "conv_modular / conv32_modular (ToInt8..ToUint32 as implemented are the specification's modular conversions for every double, "
+             "no magnitude restriction after the fix), inbounds_access (every element access of a view that is not out of bounds lies inside "
+             "the buffer, for every geometry and every buffer length), oob_has_no_elements, bytes_roundtrip (both byte orders, every width), "
+             "write_frame, set_get. The byte model (buffers fixed/resizable/detached, fixed and length-tracking views, DataView) is tied to the "
+             "engine by a correspondence run over operation histories rendered to JavaScript.",
+        technique="Lean 4 proofs (omega, induction) over a byte-level model + differential correspondence run of JS histories against the engine",
+        note="Not modelled: Float32/Float16 rounding, fill/copyWithin/set/subarray/slice/sort, SharedArrayBuffer/Atomics; raw memory code in array_buffer/utils.rs is modelled by its logical effect.",
+    ),
     "C09": dict(
         level="proof",
         text="Lean theorems about a step-by-step model of Collector::collect (trace_non_roots, mark_heap, finalize, second mark_heap, "
